@@ -34,10 +34,13 @@ type TreeSpec struct {
 	Bad   map[int]string `json:"bad"`
 	// Scripts maps a node id of a shaped tree to its transaction script
 	Scripts map[int][]string `json:"scripts"`
+	// UniqueWindows: no two live v1 contracts share a window end (see mat.World)
+	UniqueWindows bool `json:"uniqueWindows"`
 }
 
 func (ts TreeSpec) Build() *mat.Tree {
 	w := mat.NewWorld(mat.Params{Allow: ts.Allow, Require: ts.Require, Final: ts.Final, Seed: ts.Seed})
+	w.UniqueWindows = ts.UniqueWindows
 	rng := rand.New(rand.NewSource(ts.Seed))
 	if len(ts.Shape) > 0 {
 		t := mat.NewTree(w)
@@ -64,8 +67,12 @@ var regimes = [][3]uint64{{100, 110, 120}, {3, 5, 7}, {1, 1, 1}}
 // smallSpecs are the trees of Leg M / Leg R: at most `blocks` non-genesis blocks each, in the
 // three hardfork regimes (v1 only, straddling allow/require, v2 only), plus scripted trees that
 // put several v1 contracts with a shared expiration height under a fork.
-func smallSpecs(seed int64, perRegime, blocks int) []TreeSpec {
-	var out []TreeSpec
+func smallSpecs(seed int64, perRegime, blocks int, sharedWindows bool) (out []TreeSpec) {
+	defer func() {
+		for i := range out {
+			out[i].UniqueWindows = !sharedWindows
+		}
+	}()
 	for ri, r := range regimes {
 		for k := 0; k < perRegime; k++ {
 			out = append(out, TreeSpec{Seed: seed*1000 + int64(ri*100+k), Allow: r[0], Require: r[1], Final: r[2],
@@ -103,6 +110,9 @@ func smallSpecs(seed int64, perRegime, blocks int) []TreeSpec {
 				OpsPerBlk: 2, Shape: sh.shape, Bad: bad})
 		}
 	}
+	if !sharedWindows {
+		return out
+	}
 	// three v1 contracts sharing one expiration height; two are resolved by storage proofs in a block
 	// that a heavier fork then reverts (the expiration-list discipline of db.go:601-651)
 	for k := 0; k < 3; k++ {
@@ -135,7 +145,7 @@ func TestGenTrees(t *testing.T) {
 	defer res.Write()
 	per := hx.EnvInt("VERIF_PER_REGIME", 2)
 	blocks := hx.EnvInt("VERIF_TREE_BLOCKS", 5)
-	specs := smallSpecs(hx.Seed(), per, blocks)
+	specs := smallSpecs(hx.Seed(), per, blocks, os.Getenv("VERIF_PROP") == "C02")
 	var trees []mat.TreeJSON
 	for _, sp := range specs {
 		tr := sp.Build()
@@ -330,7 +340,7 @@ func (r *replayer) compare(n *RNode, ti int, want stateJ, what string, replay an
 	if want.Pc.K == "idle" && want.MinReorg != 0 && p.MinReorg != want.MinReorg {
 		return mm("minreorg", p.MinReorg, want.MinReorg)
 	}
-	if t.Node(p.Mem).L != nil && !p.StateOK {
+	if t.Node(p.Mem).L != nil && !p.StateOK && !p.OrderDiverged {
 		return mm("tipstate", "differs from linear replay", "equal")
 	}
 	// property-level audits on the real node, independent of the specification state
